@@ -1,1 +1,101 @@
-// harnesses for this module (included by the isomer_erbium_verif hook)
+// Kani harnesses for crates/erbium-net/src/lib.rs (C02, heap-free part: Ipv4Subnet mask arithmetic).
+// Ipv4Subnet is what DHCP policies match on (`match-subnet`), what `apply-subnet` expands, what the default
+// policy per `addresses` prefix is built from (dhcp/mod.rs:667) and what option 121 routes carry
+// (dhcppkt.rs:646, prefix length taken from the wire / from the configuration as a plain u8).
+#[cfg(kani)]
+mod k {
+    use super::super::*;
+    use std::net::Ipv4Addr;
+
+    // reference: RFC 4632 mask of a prefix length 0..=32
+    fn mask4(len: u8) -> u32 {
+        if len == 0 { 0 } else { u32::MAX << (32 - len as u32) }
+    }
+
+    /// VERIF: {"p":"C02","tier":"quick","fns":["Ipv4Subnet::new","Ipv4Subnet::netmask","Ipv4Subnet::network","Ipv4Subnet::broadcast","Ipv4Subnet::contains"],"bounds":"all 2^32 addresses x prefix lengths 0..=32 x all 2^32 probe addresses","oracle":"new succeeds <=> no host bit set (addr & !mask == 0); on success netmask = mask(len), network = addr, broadcast = addr | !mask, contains(ip) <=> ip & mask == addr; network and broadcast are inside, network-1 / broadcast+1 are outside","covers":4}
+    #[kani::proof]
+    fn c02_ipv4subnet_mask_arith() {
+        let a: u32 = kani::any();
+        let len: u8 = kani::any();
+        kani::assume(len <= 32);
+        let ip: u32 = kani::any();
+        let m = mask4(len);
+        let r = Ipv4Subnet::new(Ipv4Addr::from(a), len);
+        kani::cover!(r.is_ok() && len == 32, "host subnet /32");
+        kani::cover!(r.is_ok() && len == 0, "/0");
+        kani::cover!(r.is_err(), "host bits set => rejected");
+        match r {
+            Err(_) => assert!(a & !m != 0, "Ipv4Subnet::new rejects only addresses with host bits set"),
+            Ok(s) => {
+                assert!(a & !m == 0, "Ipv4Subnet::new accepts only network addresses");
+                assert!(u32::from(s.netmask()) == m, "Ipv4Subnet::netmask == mask(len)");
+                assert!(u32::from(s.network()) == a, "Ipv4Subnet::network == addr & mask");
+                assert!(u32::from(s.broadcast()) == a | !m, "Ipv4Subnet::broadcast == addr | !mask");
+                let want = ip & m == a;
+                kani::cover!(want && ip != a && len >= 8, "inside, not the network address");
+                assert!(s.contains(Ipv4Addr::from(ip)) == want, "Ipv4Subnet::contains == mask semantics");
+                assert!(s.contains(s.network()) && s.contains(s.broadcast()), "both ends are inside");
+                if a != 0 {
+                    assert!(!s.contains(Ipv4Addr::from(a - 1)), "address below the network is outside");
+                }
+                if a | !m != u32::MAX {
+                    assert!(!s.contains(Ipv4Addr::from((a | !m) + 1)), "address above the broadcast is outside");
+                }
+            }
+        }
+    }
+
+    /// VERIF: {"p":"C02","tier":"quick","fns":["Ipv4Subnet::netmask","Ipv4Subnet::network","Ipv4Subnet::broadcast","Ipv4Subnet::contains"],"bounds":"struct built field-wise (pub fields; this is how a value with host bits can exist) with all 2^32 addresses x prefix lengths 0..=32 x all probes","oracle":"network = addr & mask, broadcast = addr | !mask, netmask = mask; never panics. (contains on a value with host bits set is NOT constrained here: the constructor forbids such values)","covers":1}
+    #[kani::proof]
+    fn c02_ipv4subnet_ops_hostbits() {
+        let a: u32 = kani::any();
+        let len: u8 = kani::any();
+        kani::assume(len <= 32);
+        let m = mask4(len);
+        let s = Ipv4Subnet { addr: Ipv4Addr::from(a), prefixlen: len };
+        kani::cover!(a & !m != 0, "host bits set");
+        assert!(u32::from(s.netmask()) == m, "netmask");
+        assert!(u32::from(s.network()) == a & m, "network");
+        assert!(u32::from(s.broadcast()) == a | !m, "broadcast");
+        let _ = s.contains(Ipv4Addr::from(kani::any::<u32>()));
+    }
+
+    /// VERIF: {"p":"C02","tier":"quick","fns":["Ipv4Subnet::new","Ipv4Subnet::netmask"],"bounds":"all 2^32 addresses x EVERY u8 prefix length 0..=255 (the constructor takes a plain u8: dhcp/config.rs parse_subnet and parse_routes hand it `str::parse::<u8>()`, dhcppkt.rs:646 hands it a byte from the wire)","oracle":"the constructor is total (no panic / arithmetic overflow) and an IPv4 prefix length above 32 is refused with Err(InvalidSubnet); whatever it accepts has prefixlen <= 32","covers":3}
+    #[kani::proof]
+    fn c02_ipv4subnet_new_total_any_u8_len() {
+        let a: u32 = kani::any();
+        let len: u8 = kani::any();
+        kani::cover!(len > 32 && len < 64, "33..=63");
+        kani::cover!(len >= 64, "64..=255");
+        kani::cover!(len <= 32, "valid length");
+        let r = Ipv4Subnet::new(Ipv4Addr::from(a), len);
+        match r {
+            Ok(s) => assert!(s.prefixlen <= 32, "an accepted Ipv4Subnet has a prefix length of at most 32"),
+            Err(_) => (),
+        }
+    }
+
+    /// VERIF: {"p":"C02","tier":"quick","fns":["Ipv4Subnet::new","Ipv4Subnet::netmask"],"bounds":"all 2^32 addresses x prefix lengths 33..=63 (where the u64 shift does not overflow)","oracle":"Err(InvalidSubnet): there is no IPv4 prefix longer than /32 (split from c02_ipv4subnet_new_total_any_u8_len so the two failure modes - accepted over-long prefix / shift overflow - are reported separately)","covers":1}
+    #[kani::proof]
+    fn c02_ipv4subnet_new_rejects_len_33_to_63() {
+        let a: u32 = kani::any();
+        let len: u8 = kani::any();
+        kani::assume(len > 32 && len < 64);
+        let r = Ipv4Subnet::new(Ipv4Addr::from(a), len);
+        kani::cover!(len == 63 && a == 0xc000_0201, "reached (192.0.2.1/63)");
+        assert!(r.is_err(), "prefix lengths 33..=63 are refused");
+    }
+
+    /// VERIF: {"p":"C02","tier":"quick","fns":["Ipv4Subnet::netmask","Ipv4Subnet::network","Ipv4Subnet::broadcast","Ipv4Subnet::contains"],"bounds":"struct built field-wise with every u8 prefix length 0..=255, all addresses","oracle":"no panic / overflow in any accessor (a value with an over-long length can exist: pub fields, and new() accepts 33..=63)","covers":1}
+    #[kani::proof]
+    fn c02_ipv4subnet_ops_total_any_u8_len() {
+        let a: u32 = kani::any();
+        let len: u8 = kani::any();
+        let s = Ipv4Subnet { addr: Ipv4Addr::from(a), prefixlen: len };
+        kani::cover!(len >= 64, "64..=255");
+        let _ = s.netmask();
+        let _ = s.network();
+        let _ = s.broadcast();
+        let _ = s.contains(Ipv4Addr::from(kani::any::<u32>()));
+    }
+}
